@@ -157,6 +157,18 @@ def main():
             for p in alarms:
                 print("    %s: %s" % (p, r["checks"][p]["signatures"][:3]))
             bad += len(alarms)
+        # refactors and alternative implementations written by independent sub-agents (all 20 checks each)
+        for path in sorted(glob.glob(os.path.join(HERE, "refactors", "*", "patch.diff"))):
+            name = "agent-" + os.path.basename(os.path.dirname(path))
+            if pats and not any(p in name for p in pats):
+                continue
+            r = one(name, ALL, None, path, tier, 16, False, require_baseline=True)
+            alarms = [p for p, c in r.get("checks", {}).items() if c["rc"] == 1]
+            other = [(p, c["rc"]) for p, c in r.get("checks", {}).items() if c["rc"] not in (0, 1)]
+            print("%-10s %-48s baseline: %s  alarms: %s  non-verdicts: %s" % ("SILENT" if not alarms and r.get("checks") else "ALARM/ERR", name, r.get("baseline") or r.get("detail"), alarms, other), flush=True)
+            for p in alarms:
+                print("    %s: %s" % (p, r["checks"][p]["signatures"][:3]))
+            bad += len(alarms)
         return 1 if bad else 0
     for name, (props, edits) in mutants.M.items():
         work.append((name, props, edits, None))
